@@ -109,3 +109,14 @@ Proof.
   intros m0 m S. split; [apply safe_movblw_loop; auto | split; [apply safe_strend_loop; auto | apply safe_cs3_loop; auto]].
 Qed.
 Print Assumptions C12_loops_end_within_bound.
+
+(* the constructs of /repo/src that can panic in a release build -- unwrap / expect / panic! / unimplemented! /
+   unreachable! / assert!, indexing and slicing, division and remainder -- counted per non-test function by the translator
+   on every run (Gen/GenPanic.v), are exactly the ones Spec/PanicSites.v lists and explains the model's account of: a
+   new potential panic site anywhere in the crate makes this theorem fail until it has been accounted for *)
+From Dmd Require Import Gen.GenPanic Spec.PanicSites.
+Theorem C12_panic_census_is_the_modelled_one :
+  g_explicit_panics = pinned_explicit_panics /\ g_index_sites = pinned_index_sites
+  /\ g_division_sites = pinned_division_sites.
+Proof. repeat split; reflexivity. Qed.
+Print Assumptions C12_panic_census_is_the_modelled_one.
